@@ -42,7 +42,7 @@ META = dict(
 )
 
 TEMPLATES = ['one-chan', 'full', 'two-groups', 'group-only', 'str-chan', 'empty', 'root-only', 'list-int', 'dt-chan', 'str-props',
-             'chan-then-group', 'two-chans', 'rejected', 'odd-names']
+             'chan-then-group', 'two-chans', 'rejected', 'odd-names', 'prop-alias']
 TAGS = wr.NP_TAGS + ['datetime64', 'str']
 
 
@@ -80,8 +80,17 @@ def template(name, choose, idx, free=True):
     if name == 'odd-names':
         # empty channel / group names, quotes and slashes; the group objects are auto-added by the writer
         return [['chan', 'g', '', 'int32', 1, []], ['chan', '', "it's/a", 'int16', 2, []], ['chan', 'g', 'z9', 'uint8', 1, []]]
+    if name == 'prop-alias':
+        # one property name on several objects with values that compare equal in Python but differ in TDMS type or sign
+        return [['root', [['k', 'int:1'], ['z', 'float:0.0'], ['two', 'int:2']]],
+                ['group', 'g', [['k', 'bool:True'], ['z', 'float:-0.0'], ['two', 'float:2.0']]],
+                ['chan', 'g', 'a10', 'int32', 1, [['k', 'float:1.0'], ['z', 'int:0'], ['two', 'int:2']]],
+                ['chan', 'g', 'b10', 'int32', 1, [['k', 'int:1'], ['z', 'bool:False'], ['two', 'float:2.0']]]]
     if name == 'rejected':
         return [['chan', 'g2', 'r9', 'int32', 1, [['bad', 'unsupported']]]]
+    if name == 'big':
+        # raw data larger than the usual 8 KiB / 64 KiB I/O block sizes (one element past the boundary)
+        return [['chan', 'g', 'big8', 'float64', 8193, []], ['chan', 'g', 'big1', 'uint8', 65537, []], ['chan', 'g', 'big2', 'int16', 4097, []]]
     if name == 'two-chans':
         return [['chan', 'g', 'a8', tag, n, []], ['chan', 'g', 'b8', tag, 2 - min(n, 2), []]]
     raise ValueError(name)
@@ -107,6 +116,8 @@ def tasks(tier, seed):
     for a, b in pairs:
         ts.append(dict(sessions=[[a, b]], versions=[4713], index=True))
         ts.append(dict(sessions=[[a], [b]], versions=[4712, 4712], index=(TEMPLATES.index(a) % 2 == 0)))
+    ts.append(dict(sessions=[['big']], versions=[4712], index=True))
+    ts.append(dict(sessions=[['big', 'one-chan']], versions=[4713], index=False))
     for segs in (['full', 'one-chan'], ['one-chan', 'str-chan', 'two-groups'], ['str-props', 'dt-chan']):
         ts.append(dict(kind='paths', segs=segs, sessions=[segs], versions=[4712], index=True))
     if tier == 'thorough':
@@ -316,8 +327,12 @@ def concretize_program(task, inp, _objects_only=False):
             return int(kind[4:])
         if kind == 'float':
             return 2.5
+        if kind.startswith('float:'):
+            return float(kind[6:])
         if kind == 'bool':
             return True
+        if kind.startswith('bool:'):
+            return kind[5:] == 'True'
         if kind == 'str':
             return 'vä/lue'
         if kind.startswith('symstr:'):
@@ -332,6 +347,7 @@ def concretize_program(task, inp, _objects_only=False):
         if kind.startswith('wrap:'):
             cls = getattr(types, kind[5:])
             return cls({'Int8': -5, 'Uint16': 65535, 'Uint64': 2 ** 64 - 1, 'SingleFloat': 0.5, 'Int64': -2 ** 62}[kind[5:]])
+        raise ValueError('unknown property kind %r' % kind)
 
     def obj(spec):
         if spec[0] == 'root':
